@@ -445,6 +445,10 @@ fn main() {
     if let Some(i) = args.iter().position(|a| a == "--tier") {
         tier = args.get(i + 1).and_then(|t| Tier::parse(t)).unwrap_or(Tier::Quick);
     }
+    if tier == Tier::Quick {
+        std::env::set_var("XS_MAX_WALL_S", "120");
+        std::env::set_var("XS_MAX_STATES", "3000000");
+    }
     let code = match args[1].as_str() {
         "C19" => {
             let chk = Check::new("C19", PART, tier, "exploration");
